@@ -33,7 +33,7 @@ func init() {
 
 const poolWakeup = time.Millisecond
 
-func goid() int64 {
+func goidC04() int64 {
 	var buf [64]byte
 	n := runtime.Stack(buf[:], false)
 	f := strings.Fields(string(buf[:n]))
@@ -76,7 +76,7 @@ func poolGate(point string, a, b uint64) {
 	if run == nil {
 		return
 	}
-	id := goid()
+	id := goidC04()
 	run.mu.Lock()
 	r := run.goids[id]
 	if r == nil || !r.armed {
@@ -109,7 +109,7 @@ func newPoolRun(kind string, capacity, n int) *poolRun {
 		run.readers = append(run.readers, r)
 		go func() {
 			run.mu.Lock()
-			run.goids[goid()] = r
+			run.goids[goidC04()] = r
 			run.mu.Unlock()
 			ready <- struct{}{}
 			for c := range r.cmd {
